@@ -48,3 +48,45 @@ inline void instantiate_drop_operation_state()
     auto os = ex::connect(ex::drop_operation_state(ex::split(ex::just(1))), by_value_sink{});
     ex::start(os);
 }
+
+// split / split_tuple deliver ONE stored result to every consumer: the stored error (and for split also the stored
+// values) must reach each consumer as a const lvalue reference (= a copy for whoever keeps it).  Handing it on as an
+// rvalue lets the first consumer move the payload out; every later consumer then receives a moved-from error
+// (a null exception_ptr) instead of "the same exception".
+#include <pika/execution/algorithms/split_tuple.hpp>
+#include <tuple>
+struct shared_result_sink
+{
+    template <typename... Ts> void set_value(Ts&&...) && noexcept {}
+    template <typename E> void set_error(E&&) && noexcept
+    {
+        static_assert(std::is_lvalue_reference_v<E> && std::is_const_v<std::remove_reference_t<E>>,
+            "split/split_tuple hand the shared stored error to a consumer as a non-const or rvalue reference (the first consumer can move it out; later consumers get a moved-from error)");
+    }
+    void set_stopped() && noexcept {}
+    constexpr ex::empty_env get_env() const& noexcept { return {}; }
+};
+struct shared_value_sink
+{
+    template <typename... Ts> void set_value(Ts&&...) && noexcept
+    {
+        static_assert(((std::is_lvalue_reference_v<Ts> && std::is_const_v<std::remove_reference_t<Ts>>) && ...),
+            "split hands the shared stored values to a consumer as non-const or rvalue references (one consumer can modify or move out what the others receive)");
+    }
+    template <typename E> void set_error(E&&) && noexcept {}
+    void set_stopped() && noexcept {}
+    constexpr ex::empty_env get_env() const& noexcept { return {}; }
+};
+inline void instantiate_shared_results()
+{
+    auto s = ex::split(ex::just(1));
+    auto o1 = ex::connect(s, shared_result_sink{});
+    ex::start(o1);
+    auto o2 = ex::connect(s, shared_value_sink{});
+    ex::start(o2);
+    auto [a, b] = ex::split_tuple(ex::just(std::tuple<int, double>(1, 2.0)));
+    auto o3 = ex::connect(std::move(a), shared_result_sink{});
+    ex::start(o3);
+    auto o4 = ex::connect(std::move(b), shared_result_sink{});
+    ex::start(o4);
+}
